@@ -23,7 +23,7 @@ RULE = ("generated datasets: daily meter (local midnight, or another fixed hour)
 ASSUMPTIONS = ["the final meter day (open-ended last interval) is excluded", "means are compared with 1e-9 relative tolerance (sum re-association)",
                "'readings of a day' are the feed timestamps inside the meter day; a DST day has 23 or 25 hourly readings"]
 REQUIRED_REACH = {"dataset.judged": 40, "day.mean_compared": 4000, "day.expected_missing": 100, "day.exactly_half": 20, "counts.days_compared": 1500,
-                  "feed.half_hourly": 8, "day.dst": 8, "day.dst_around_half": 4, "hook.check_data_sufficiency": 40, "meter.zero_reads": 10, "meter.days_without_usage": 20}
+                  "feed.half_hourly": 8, "day.dst": 8, "day.dst_around_half": 4, "hook.check_data_sufficiency": 40, "meter.zero_reads": 10, "meter.days_without_usage": 20, "feed.starts_at_another_hour_than_the_meter_reads": 8}
 
 VIOL = []
 SUFF = []
@@ -142,7 +142,10 @@ def run_case(spec):
         y[zr.choice(np.arange(3, ndays - 3), size=int(spec["zero_reads"]), replace=False)] = 0.0
         I.reach("meter.zero_reads", int(spec["zero_reads"]))
     t0, t1 = midx[0], midx[-1] + pd.Timedelta(days=1)
-    fidx = pd.date_range(t0.tz_convert("UTC"), t1.tz_convert("UTC"), freq="%dmin" % minutes, inclusive="left").tz_convert(ftz)
+    lead = int(spec.get("feed_lead_h", 0))          # the weather feed starts some hours before the first meter read (another wall-clock hour than the reads)
+    if lead:
+        I.reach("feed.starts_at_another_hour_than_the_meter_reads")
+    fidx = pd.date_range((t0 - pd.Timedelta(hours=lead)).tz_convert("UTC"), t1.tz_convert("UTC"), freq="%dmin" % minutes, inclusive="left").tz_convert(ftz)
     hod = fidx.tz_convert(tz).hour.values + fidx.tz_convert(tz).minute.values / 60
     tv = np.round(55 + 10 * np.sin(2 * np.pi * (hod - 15) / 24) + rng.normal(0, 3, len(fidx)) + np.linspace(-15, 15, len(fidx)), 2)
     # meter-day id of each feed reading
@@ -289,6 +292,8 @@ def gen_cases(tier, seed):
         cases.append(dict(kind="dataset", cls=cls, entry=str(rng.choice(["series", "frame"], p=[0.7, 0.3])), tz=tz, feed_tz=ftz, minutes=minutes,
                           meter_hour=0 if rng.random() < 0.8 or cls.startswith("billing") else int(rng.choice([6, 7, 12])), pattern=pats[i % len(pats)],
                           start=start, days=int(rng.choice([40, 70, 100])) if not cls.startswith("billing") else 120, n=i))
+        if i % 3 == 2 and not cls.startswith("billing"):
+            cases[-1]["feed_lead_h"] = [5, 6, 19, 1][(i // 3) % 4]
         if i % 4 == 1 and not cls.startswith("billing"):
             cases[-1]["zero_reads"] = 1 + i % 5
         if i % 4 == 3 and not cls.startswith("billing"):
